@@ -11,8 +11,8 @@ NOT_APPLICABLE = {}
 
 PROPS = {
     "C15": dict(
-        level_text="Proof: Parser.termOf/SetPlaceholder, unDoubleQuote (the escape regexp), the operand level of the reader with the placeholder queue (term0, term0Atom, functionalNotation, list, Parser.Term; empty operator table, pre-tokenised input) and convertAssign* with explicit integer widths are modelled in Lean. Kernel-checked for ALL inputs: un-quoting the double-quoted literal of any string gives the string back (C15_unDoubleQuote_escape); for every Go value (all integer widths, floats, strings over all of Unicode, nested slices) and every double_quotes setting termOf yields exactly the term the reader produces for the value's literal (C15_termOf_is_literal, C15_string_is_data); parsing commutes with instantiating the argument queue, i.e. the result for any arguments is one template computed from the text alone with the arguments plugged into holes, never inspected (C15_placeholder_is_data, C15_placeholder_template, C15_query_template); the number of arguments a text accepts is unique, more is 'too many arguments' (C15_placeholder_count; 'fewer gives exactly not-enough-arguments' is kept as an open statement), unsupported kinds are rejected before parsing (C15_unsupported_is_error); for every destination type of the property convertAssign stores a value that is exactly the answer's and within the type, or fails (C15_scan_exact_or_error, C15_scan_out_of_range_is_error, C15_scan_unsupported_is_error); the pinned conversions violate this (C15_scan_exact_or_error_pinned_witness = D15, repaired in the repo). Tied to the Go code by c15.args (API with placeholders vs the text with the values' literals written by an independent printer, compared with ==/2 inside Prolog, vs model and specification) and c15.scan (every destination type x answers on and around each range).",
-        level_note="Trusted: Lean kernel; the hand-written model (checked by differential runs, not proved); the reader is modelled at operand level with an empty operator table and on tokens (lexer and operators belong to C05/C06; the stream exercises the real lexer+parser, operator-free templates only); Go strings are assumed valid UTF-8; int is 64 bits; float32 destinations round (recorded by C15_scan_float32_rounds, not part of the property's list); whether a list is held as charList/codeList (and hence scans into a string) is a parameter of the model.",
+        level_text="Proof: Parser.termOf/SetPlaceholder, unDoubleQuote (the escape regexp), the operand level of the reader with the placeholder queue (term0, term0Atom, functionalNotation, list, Parser.Term; empty operator table, pre-tokenised input) and convertAssign* with explicit integer widths are modelled in Lean. Kernel-checked for ALL inputs: un-quoting the double-quoted literal of any string gives the string back (C15_unDoubleQuote_escape); for every Go value (all integer widths, floats, strings over all of Unicode, nested slices) and every double_quotes setting termOf yields exactly the term the reader produces for the value's literal (C15_termOf_is_literal, C15_string_is_data); parsing commutes with instantiating the argument queue, i.e. the result for any arguments is one template computed from the text alone with the arguments plugged into holes, never inspected (C15_placeholder_is_data, C15_placeholder_template, C15_query_template); the number of arguments a text accepts is unique, more is 'too many arguments' (C15_placeholder_count; 'fewer gives exactly not-enough-arguments' is kept as an open statement), unsupported kinds are rejected before parsing (C15_unsupported_is_error); for every destination type of the property convertAssign stores a value that is exactly the answer's and within the type, or fails (C15_scan_exact_or_error, C15_scan_out_of_range_is_error, C15_scan_unsupported_is_error); the pinned conversions violate this (C15_scan_exact_or_error_pinned_witness = D15, C15_scan_float32_pinned_witness = D20, both repaired in the repo). Tied to the Go code by c15.args (API with placeholders vs the text with the values' literals written by an independent printer, compared with ==/2 inside Prolog, vs model and specification) and c15.scan (every destination type x answers on and around each range).",
+        level_note="Trusted: Lean kernel; the hand-written model (checked by differential runs, not proved); the reader is modelled at operand level with an empty operator table and on tokens (lexer and operators belong to C05/C06; the stream exercises the real lexer+parser, operator-free templates only); Go strings are assumed valid UTF-8; int is 64 bits; float32 destinations store the nearest single-precision value (C15_scan_float32_rounds: rounding is inherent to the type and not claimed exact; overflow to an infinity was a defect, D20, repaired); whether a list is held as charList/codeList (and hence scans into a string) is a parameter of the model.",
         technique="Lean 4 structural induction over Go values/terms/fuel (naturality of the parser in its argument queue; literal reader; exactness of conversions) + differential runs against the real API with an independent literal printer",
         lean_module="PrologVerif.Properties.C15",
         ns="PrologVerif.C15",
